@@ -1,2 +1,12 @@
 import Solvor.Cp.Theorems
 /-! Axiom audit for the property theorems of C05 (run by every check). -/
+#print axioms Solvor.Cp.check_decides
+#print axioms Solvor.Cp.solutions_complete
+#print axioms Solvor.Cp.solve_correct
+#print axioms Solvor.Cp.propagator_sound
+#print axioms Solvor.Cp.propagate_sound
+#print axioms Solvor.Cp.dfs_leaf_needs_check
+#print axioms Solvor.Cp.dfs_returns_solutions
+#print axioms Solvor.Cp.choose_solver_total
+#print axioms Solvor.Cp.enc_linear
+#print axioms Solvor.Cp.encode_model_exact_partial
